@@ -167,7 +167,9 @@ def class_clauses(cname, x, cfg, NFFT, s1, s2):
     def fresh(s, sbf):
         # "fresh" or reached through a history that ends in the same settings (derived from the case itself; see _estimators.via)
         from props import _estimators as E
-        route = 'fresh' if fresh_only else E.route_for(x, cname, NFFT, s, sbf)[0]
+        # (pdaniell, the 13th class, is compared on freshly constructed objects only: for complex data its stored PSD is shorter than NFFT and
+        #  the psd setter then rewrites NFFT, so every history that passes through complex data leaves another grid behind -- see FRESH_ONLY)
+        route = 'fresh' if (fresh_only or cname == 'pdaniell') else E.route_for(x, cname, NFFT, s, sbf)[0]
         p = E.via(lambda d, n, s_, b: O.make(cname, d, cfg, s_, n, b), x, NFFT, s, sbf, route)
         return np.array(p.psd, dtype=float), p
     a1, _ = fresh(s1, False); b1, _ = fresh(s1, True); a2, pa2 = fresh(s2, False); b2, _ = fresh(s2, True)
